@@ -228,7 +228,7 @@ class StmtMixin:
                                     self.raise_(cx, bad, "builtins.KeyError")
                                 if ok is not None:
                                     ts = [z3.BoolVal(False) if f == "p_" + kc else b.sort.get(b.t, f) for f, _ in b.sort.fields]
-                                    nxt.extend(self.assign_target(tg.value, VRec(b.sort.mk(*ts), b.sort), ok, cx))
+                                    nxt.extend(self.assign_target(tg.value, VRec(b.sort.mk(*ts), b.sort), ok, cx, mutation=True))
                                 continue
                             if isinstance(b, VConcDict):
                                 kc = k.conc()
@@ -236,7 +236,7 @@ class StmtMixin:
                                 if len(items) == len(b.items):
                                     self.raise_(cx, s3, "builtins.KeyError")
                                     continue
-                                nxt.extend(self.assign_target(tg.value, VConcDict(items), s3, cx))
+                                nxt.extend(self.assign_target(tg.value, VConcDict(items), s3, cx, mutation=True))
                             else:
                                 raise Unsupported("del on %r" % (b,))
                 elif isinstance(tg, ast.Name):
@@ -300,11 +300,16 @@ class StmtMixin:
                 outs.extend((x, ("normal",)) for x in self.assign_target(s.target, v, s3, cx))
         return outs
 
-    def assign_target(self, tg, v, st, cx):
-        "-> [states]"
+    def assign_target(self, tg, v, st, cx, mutation=False):
+        """-> [states].  mutation=True: the value is the new content of the object the target expression denotes (write-back of an
+        in-place update such as d[k] = v or l.append(x)): a name that is not a local then denotes the module global"""
         if isinstance(tg, ast.Name):
             st = st.copy()
             gl = st.env.get("__globals__")
+            if mutation and tg.id not in st.env and not any(tg.id in e for e in cx.closure) and (cx.mod.qn + "." + tg.id) in self.reg.globals:
+                qn = cx.mod.qn + "." + tg.id
+                st.glob[qn] = coerce(v, self.reg.globals[qn])
+                return [st]
             if getattr(cx, "module_level", False) and (cx.mod.qn + "." + tg.id) in self.reg.records:
                 return [st]  # class-valued module constant (e.g. a namedtuple): modelled by the declared record
             if (gl is not None and tg.id in gl.what) or (getattr(cx, "module_level", False) and (cx.mod.qn + "." + tg.id) in self.reg.globals):
@@ -347,7 +352,7 @@ class StmtMixin:
                     if rec.fidx(tg.attr) is None:
                         raise Unsupported("record %s has no field %s" % (rec, tg.attr))
                     ts = [term_of(v, s) if f == tg.attr else rec.get(b.t, f) for f, s in rec.fields]
-                    outs.extend(self.assign_target(tg.value, VRec(rec.mk(*ts), rec), s2, cx))
+                    outs.extend(self.assign_target(tg.value, VRec(rec.mk(*ts), rec), s2, cx, mutation=True))
                 elif isinstance(b, VModule):
                     qn = b.qn + "." + tg.attr
                     if qn not in self.reg.globals:
@@ -372,7 +377,7 @@ class StmtMixin:
                         nb = VList(b.sort.mk(b.sort.len(b.t), z3.Store(b.sort.arr(b.t), i, term_of(v, b.sort.elem))), b.sort)
                     else:
                         raise Unsupported("subscript store on %r" % (b,))
-                    outs.extend(self.assign_target(tg.value, nb, s3, cx))
+                    outs.extend(self.assign_target(tg.value, nb, s3, cx, mutation=True))
             return outs
         if isinstance(tg, ast.Call) or isinstance(tg, ast.Constant):
             return [st]
